@@ -294,6 +294,8 @@ def handVerdict (prop : String) (args res : List String) : Verdict :=
       else if out ≠ model then vDiff "mreq" model tag
       else vOk tag
   | ["hand", mode, nps, script], [outs] =>
+    -- "s-": the harness keeps stale partial files under the names of the pieces being fetched; the task must behave the same
+    let mode := if mode.startsWith "s-" then (mode.drop 2).toString else mode
     if outs = "P" ∨ (outs.splitOn "PANIC").length > 1 then vProp "task-panicked" "hand" else
     match nps.toNat?, initState mode (nps.toNat?.getD 0), (script.splitOn ";").mapM parseEv with
     | some _, some st0, some evs =>
